@@ -154,7 +154,7 @@ func (c *metaCluster) close() {
 }
 
 // fault events between two client commands
-var raftEvents = []string{"none", "stop-leader", "stop-follower", "start-stopped", "restart-leader", "restart-all"}
+var raftEvents = []string{"none", "stop-leader", "stop-follower", "start-stopped", "restart-leader", "restart-all", "stop-both-followers", "swap-running-and-stopped"}
 
 func raftBody(t *testing.T, ncmd, maxFaults int) func(tp *explore.Tape) explore.Outcome {
 	return func(tp *explore.Tape) (out explore.Outcome) {
@@ -244,6 +244,30 @@ func raftBody(t *testing.T, ncmd, maxFaults int) func(tp *explore.Tape) explore.
 						desc = append(desc, fmt.Sprintf("restart leader meta%d", l.id))
 						l.stop()
 						l.start()
+					}
+				case "stop-both-followers":
+					// the leader is cut off from its quorum (it still believes in its lease for a moment)
+					for _, n := range c.nodes {
+						if n.up && !n.svc.VIsLeader() {
+							desc = append(desc, fmt.Sprintf("stop follower meta%d", n.id))
+							n.stop()
+						}
+					}
+				case "swap-running-and-stopped":
+					// every running node stops, every stopped node starts: the new majority has not seen
+					// what the old one may still have had in flight
+					var toStart []*metaNode
+					for _, n := range c.nodes {
+						if n.up {
+							desc = append(desc, fmt.Sprintf("stop meta%d", n.id))
+							n.stop()
+						} else {
+							toStart = append(toStart, n)
+						}
+					}
+					for _, n := range toStart {
+						desc = append(desc, fmt.Sprintf("start meta%d", n.id))
+						n.start()
 					}
 				case "restart-all":
 					desc = append(desc, "stop every running meta node, then start all three")
